@@ -70,12 +70,16 @@ pub fn pools() -> &'static Pools {
         let mut kana = take(0xff61, 0xff9f, if small { 9 } else { 1 });
         kana.extend(take(0x3041, 0x3093, if small { 11 } else { 1 }));
         kana.extend(take(0x30a1, 0x30f6, if small { 13 } else { 1 }));
-        let kanji = take(0x4e00, 0x9fa0, if small { 1511 } else { 1 });
+        let mut kanji = take(0x4e00, 0x9fa0, if small { 1511 } else { 1 });
+        kanji.extend(take(0xf900, 0xfa2d, if small { 61 } else { 1 })); // IBM-extension kanji (lead bytes 0xFA..0xFC)
         let mut wide = take(0xff01, 0xff5e, if small { 17 } else { 1 });
         wide.extend(take(0x3000, 0x3015, if small { 7 } else { 1 }));
         wide.extend(take(0x2010, 0x2312, if small { 97 } else { 1 }));
         wide.extend(take(0x0391, 0x0451, if small { 31 } else { 1 }));
         wide.extend(take(0x2460, 0x2473, if small { 7 } else { 1 }));
+        wide.extend(take(0xffe0, 0xffe6, if small { 3 } else { 1 })); // fullwidth cent .. won signs, U+FFE3 among them
+        wide.extend(take(0x2500, 0x254b, if small { 37 } else { 1 })); // box drawing
+        wide.extend(take(0x2160, 0x217f, if small { 11 } else { 1 })); // Roman numerals (NEC / IBM rows)
         let mut greek = take(0x0391, 0x0451, if small { 13 } else { 1 });
         greek.extend(take(0x00a7, 0x00f7, if small { 9 } else { 1 }));
         Pools {
@@ -139,7 +143,11 @@ pub fn gen_sjis(rng: &mut Rng, max_chars: usize) -> String {
     if !s.is_empty() && rng.chance(1, 40) {
         // ends in a C0 control character / DEL (single bytes 01..1F, 7F: in the domain like any other)
         s.pop();
-        s.push(*rng.pick(&['\u{1}', '\u{2}', '\t', '\u{1f}', '\u{7f}']));
+        s.push(*rng.pick(&['\u{1}', '\u{2}', '\t', '\u{1f}', '\u{7f}', '\u{80}']));
+        if !sjis_ok(&s) {
+            s.pop();
+            s.push('\u{7f}');
+        }
         if s.chars().count() >= 2 && rng.chance(1, 3) {
             let last = s.pop().unwrap();
             s.pop();
@@ -322,7 +330,8 @@ pub fn gen_unicode(rng: &mut Rng, max_chars: usize) -> String {
 
 /// Pairs of distinct strings with equal hashes: the first under std's DefaultHasher (SipHash-1-3 with
 /// zero keys, `str` hashing), the others under FxHash (rustc-hash, a dependency of the crate).
-pub const COLLIDING_PAIRS: [(&str, &str); 5] = [
+pub const COLLIDING_PAIRS: [(&str, &str); 6] = [
+    ("vk3nsfgyjp_i9__k.bin", "6tt7pubcvhl_z6gd.bin"),
     ("li0irn45cicua", "3gl5njuk0ie2k"),
     ("MID_AAAAAAAAAAAA", "MID_AAAIZAAAAAAA"),
     ("MID_AAABDAAAAAAA", "MID_AAAJYAAAAAAA"),
